@@ -200,6 +200,9 @@ type World struct {
 	// ledger keeps no strong reference to built-in arguments.
 	slotsUsed int // generic top-level kinds claim global slots (kinds_gen.go)
 	HoldArgs  bool
+	// OnBuiltin is told every built-in value (context, Scope, Provider) a constructor receives: user code
+	// may hand those on to somebody else
+	OnBuiltin func(v any)
 	OnMade    func(obj any) // called for every instance a constructor makes
 	// InClose runs inside every Close() of a harness instance: a Close method that does something
 	// with the container (closes its own scope, the provider)
@@ -500,6 +503,9 @@ func (w *World) decodeArg(d DepSpec, v reflect.Value) ArgRec {
 	if d.Builtin != 0 {
 		if !v.IsNil() {
 			a.Present = true
+			if h := w.OnBuiltin; h != nil {
+				h(v.Interface())
+			}
 			if !w.HoldArgs {
 				a.Raw = v.Interface()
 			}
